@@ -7,6 +7,7 @@ import json
 import os
 import random
 import re
+import shutil
 import struct
 
 import vf
@@ -474,11 +475,18 @@ def run_c10(args):
     chk.extra["rule"] = ("a case is one script line (format, canonical format, offsets, row of raw values, palette) executed "
                          "through every presentation; distinct = distinct script line; every case is run under the default "
                          "implementation chain and with PIXMAN_DISABLE='fast mmx sse2 ssse3'")
+    cleanup(chk, wd, args)
     chk.assumptions += ["little-endian host", "float images hold no NaN/Inf (outside the domain of pixel values)",
                         "TLC/SANY and the CommunityModules Json reader are trusted",
                         "rgba_float / rgb_float are not accepted by pixman_format_supported_source and have no accessor "
                         "variants in the library; they serve as the canonical float representation"]
     return chk.finish()
+
+
+def cleanup(chk, wd, args):
+    """traces are deleted after acceptance (the evidence keeps samples); kept on a violation or with --keep"""
+    if not chk.violations and not getattr(args, "keep", False):
+        shutil.rmtree(wd, ignore_errors=True)
 
 
 def save_replay_script(v, wd, general_traces):
@@ -808,6 +816,7 @@ def run_c01(args):
                          "source/mask/destination format, raw source, mask, destination pixel); every case is executed under "
                          "the default chain and with PIXMAN_DISABLE='fast mmx sse2 ssse3'; tolerance-class inputs are "
                          "premultiplied by construction, so every case is judged")
+    cleanup(chk, wd, args)
     chk.assumptions += ["little-endian host", "tolerance class judged on premultiplied inputs (colour <= alpha)",
                         "HSL operators with a component-alpha mask, sRGB / float formats and dithering are outside the domain",
                         "the source pixel a destination pixel sees under the five presentations is the sampling rule of C08 "
